@@ -130,7 +130,8 @@ fn libs(fields: &[String]) -> Vec<String> {
 /// `<index>:<text>` (evaluate the text on that instance) or `new` (create another instance with
 /// `new_with_stdlib`, which must succeed whatever the others have evaluated).
 fn world(fields: &[String]) -> Vec<String> {
-    use ruschm::interpreter::Interpreter;
+    use ruschm::interpreter::{Interpreter, LibraryFactory};
+    use ruschm::parser::{LibraryName, LibraryNameElement};
     let mut insts: Vec<Interpreter<f32>> = vec![Interpreter::new_with_stdlib(), Interpreter::new_with_stdlib()];
     let mut out = vec![];
     for f in fields {
@@ -145,6 +146,24 @@ fn world(fields: &[String]) -> Vec<String> {
             continue;
         }
         let (idx, text) = f.split_once(':').unwrap();
+        // `R<index>:<name>=<source>`: register a library source on that instance (result `reg-ok` or the error)
+        if let Some(ridx) = idx.strip_prefix('R') {
+            let ridx: usize = ridx.parse().unwrap();
+            let (name, src) = text.split_once('=').unwrap();
+            let lib = LibraryName(name.split('/').map(|e| LibraryNameElement::Identifier(e.to_string())).collect());
+            match std::panic::catch_unwind(std::panic::AssertUnwindSafe(|| LibraryFactory::from_char_stream(&lib, src.chars()))) {
+                Ok(Ok(factory)) => match insts.get_mut(ridx) {
+                    Some(it) => {
+                        it.register_library_factory(factory);
+                        out.push("reg-ok".to_string())
+                    }
+                    None => out.push("X no-instance".to_string()),
+                },
+                Ok(Err(e)) => out.push(format!("R{}", crate::canon_err(&e))),
+                Err(p) => out.push(crate::panic_message(p)),
+            }
+            continue;
+        }
         let idx: usize = idx.parse().unwrap();
         match insts.get_mut(idx) {
             Some(it) => out.push(crate::eval_form(it, text)),
